@@ -95,6 +95,13 @@ class Sub(object):
             k = sel.index((p, d))
             nc = self.n_cov()
             betas = theta[self.n_pop() + k * nc: self.n_pop() + (k + 1) * nc]
+            if self.kind == 'TG':
+                # CoqInterval's integral_intro cannot reify integration bounds containing a literal 0 (e.g. the
+                # `+ 0` that ends cov_shift's sum), so the shifted parameter of a truncated Gaussian term is
+                # constant-folded here in exact rational arithmetic (the inputs are dyadic)
+                from fractions import Fraction
+                val = Fraction(base) + sum(Fraction(b) * Fraction(c) for b, c in zip(betas, chi_row))
+                return coqR(val)
             return '(cov_shift %s [%s] [%s])' % (coqR(base), '; '.join(coqR(b) for b in betas),
                                                  '; '.join(coqR(c) for c in chi_row))
         return coqR(base)
@@ -156,7 +163,8 @@ class Sub(object):
         """d/d(population parameter (p, d) as seen by individual i)"""
         u = u if u is not None else '0'
         if self.special():
-            return '0'
+            # point masses: the individual value IS the (shifted) population parameter of row het_row(i)
+            return u if p == self.het_row(i) else '0'
         mu, sg = self.par_expr(theta, 0, d, i, chi_row), self.par_expr(theta, 1, d, i, chi_row)
         if self.centered:
             return '(%s_%s %s %s %s)' % (self.kind, 'dmu' if p == 0 else 'dsig', mu, sg, coqR(x))
@@ -209,3 +217,73 @@ def score_expr(subs, theta, X, chis):
                     terms.append(t)
                 ok = ok and s.point_mass_ok(th, i, d, X[i][d0 + d], ch)
     return plus(terms), ok
+
+
+# ------------------------------------------------------------------------------------------------
+# hierarchical objects: flat vector = [bottom values of the non-special dimensions per individual | population
+# parameters]; specification of score and gradient (properties C02, C03)
+# ------------------------------------------------------------------------------------------------
+
+def split_vector(subs, n_ids, v):
+    """(X with None at special dimensions, theta)"""
+    n_h = sum(s.n_hdim() for s in subs)
+    X = []
+    for i in range(n_ids):
+        row, k = [], 0
+        for s in subs:
+            for d in range(s.nd):
+                if s.special():
+                    row.append(None)
+                else:
+                    row.append(v[i * n_h + k])
+                    k += 1
+        X.append(row)
+    return X, list(v[n_ids * n_h:])
+
+
+def psi_exprs(subs, n_ids, v, chis):
+    X, theta = split_vector(subs, n_ids, v)
+    out, vals = [], []
+    for i in range(n_ids):
+        row, rv = [], []
+        for s, (d0, p0, c0) in zip(subs, slices(subs)):
+            th = theta[p0:p0 + s.n_par()]
+            ch = chis[i][c0:c0 + s.n_cov()] if chis else None
+            for d in range(s.nd):
+                row.append(s.psi_expr(th, i, d, X[i][d0 + d], ch))
+                rv.append(s.psi_value(th, i, d, X[i][d0 + d], ch))
+        out.append(row)
+        vals.append(rv)
+    return out, vals
+
+
+def pop_score_expr(subs, n_ids, v, chis):
+    """sum of the population log-density terms of the bottom values (special dimensions contribute nothing)"""
+    X, theta = split_vector(subs, n_ids, v)
+    terms = []
+    for s, (d0, p0, c0) in zip(subs, slices(subs)):
+        if s.special():
+            continue
+        th = theta[p0:p0 + s.n_par()]
+        for i in range(n_ids):
+            ch = chis[i][c0:c0 + s.n_cov()] if chis else None
+            for d in range(s.nd):
+                terms.append(s.lp_expr(th, i, d, X[i][d0 + d], ch))
+    return plus(terms)
+
+
+def hier_gradient_exprs(subs, n_ids, v, chis, U):
+    """U[i][d]: Coq expression of dL_i/dpsi_{i,d}.  Returns the gradient in the published order."""
+    X, theta = split_vector(subs, n_ids, v)
+    bottom = [[] for _ in range(n_ids)]
+    top = []
+    for s, (d0, p0, c0) in zip(subs, slices(subs)):
+        th = theta[p0:p0 + s.n_par()]
+        xs = [[X[i][d0 + d] for d in range(s.nd)] for i in range(n_ids)]
+        us = [[U[i][d0 + d] for d in range(s.nd)] for i in range(n_ids)]
+        ch = [chis[i][c0:c0 + s.n_cov()] for i in range(n_ids)] if chis else None
+        if not s.special():
+            for i in range(n_ids):
+                bottom[i] += [s.dbottom_expr(th, i, d, xs[i][d], us[i][d], ch[i] if ch else None) for d in range(s.nd)]
+        top += s.dtheta_flat_exprs(th, xs, us, ch)
+    return [e for row in bottom for e in row] + top
